@@ -12,7 +12,7 @@ import (
 
 func (e *Engine) newFnCtx(fn *ssa.Function) *FnCtx {
 	return &FnCtx{
-		eng: e, fn: fn, c: e.contracts[e.fnName(fn)],
+		eng: e, fn: fn, c: e.contracts[e.fnName(fn)], name: e.fnName(fn), pkg: fn.Pkg.Pkg,
 		declared: map[string]string{}, stateSort: map[string]string{},
 		vals: map[ssa.Value]Val{}, endState: map[*ssa.BasicBlock]*State{},
 		ordinals: map[string]int{}, trustedUsed: map[string]bool{},
@@ -26,7 +26,7 @@ func (fc *FnCtx) Translate() (err error) {
 	defer func() {
 		if r := recover(); r != nil {
 			if ue, ok := r.(userError); ok {
-				err = fmt.Errorf("%s: %s", fc.eng.fnName(fc.fn), string(ue))
+				err = fmt.Errorf("%s: %s", fc.name, string(ue))
 				return
 			}
 			panic(r)
@@ -881,4 +881,55 @@ func (fc *FnCtx) assumeInvariant(li *loopInfo, st *State) {
 	for _, inv := range fc.c.LoopInv[li.ord] {
 		st.assume(env.evalBool(inv))
 	}
+}
+
+// newLemmaCtx builds a context without code: the obligations come from the lemma's clauses only.
+func (e *Engine) newLemmaCtx(c *Contract) *FnCtx {
+	fc := &FnCtx{
+		eng: e, c: c, name: c.Func, pkg: e.pkgOfContract(c), lemmaMode: true,
+		declared: map[string]string{}, stateSort: map[string]string{},
+		vals: map[ssa.Value]Val{}, endState: map[*ssa.BasicBlock]*State{},
+		ordinals: map[string]int{}, trustedUsed: map[string]bool{},
+		debugNames: map[string][]debugBinding{}, strConsts: map[string]string{},
+		ghostDecl: map[string]types.Type{}, anchorOrd: map[string]int{},
+	}
+	return fc
+}
+
+// TranslateLemma: variables are universally quantified (fresh constants), requires assumed, ensures proved.
+// Calls to functions under contract inside the clauses are replaced by their contracts.
+func (fc *FnCtx) TranslateLemma() (err error) {
+	defer func() {
+		if r := recover(); r != nil {
+			if ue, ok := r.(userError); ok {
+				err = fmt.Errorf("%s: %s", fc.name, string(ue))
+				return
+			}
+			panic(r)
+		}
+	}()
+	fc.entry = fc.newRootState("true")
+	fc.cur = fc.entry.derive()
+	env := &Env{fc: fc, pkg: fc.pkg, vars: map[string]Val{}, bound: map[string]Val{}, st: fc.cur, old: fc.entry}
+	for _, v := range fc.c.Vars {
+		e, perr := parseExprSrc(v[1])
+		if perr != nil {
+			userErr("lemma variable %s: %v", v[0], perr)
+		}
+		t := env.resolveType(e)
+		val := fc.freshVal("v_"+v[0], t)
+		fc.cur.assume(fc.wfFacts(val))
+		env.vars[v[0]] = val
+	}
+	for _, r := range fc.c.Requires {
+		env.st = fc.cur
+		fc.cur.assume(env.evalBool(r))
+	}
+	fc.cover("pre", fc.cur, 0)
+	for i, e := range fc.c.Ensures {
+		env.st = fc.cur
+		goal := env.evalBool(e)
+		fc.obligeAt(fc.cur, "lemma", fmt.Sprintf("e%d", i+1), goal, 0, "lemma: "+fc.c.EnsuresSrc[i])
+	}
+	return nil
 }
